@@ -46,7 +46,7 @@ def _history(progs):
         o = P.render_page(p)
         if pre is not None:
             provtrace.mark_end(bool(o.get("err")))
-            o["ptrace"] = provtrace.project(provtrace.stop() or [], pre)
+            o["ptrace"] = provtrace.project(provtrace.stop(), pre)
         o["residue"] = {"provide_cache": len(set(pp.provide_cache) - before[0]),
                         "provide_references": len(set(pp.provide_references) - before[1]),
                         "all_reference_ids": len(set(pp.all_reference_ids) - before[2])}
